@@ -22,17 +22,21 @@ def seeded_table():
         own_rules = sorted({l.split()[0] for l in own.get("lines", []) if re.match(r"^C\d\d\.R\d", l)})
         others = sorted(k for k, v in fired.items() if k != prop and v.get("exit") == 1)
         summ = m.get("summary", "")
-        needs = m.get("needs", "")
+        needs = m.get("needs") or m.get("what_it_needs_to_manifest", "")
+        summ = (summ[:300] + " ...") if len(summ) > 300 else summ
+        needs = (needs[:300] + " ...") if len(needs) > 300 else needs
+        summ, needs = summ.replace("|", "/"), needs.replace("|", "/")
         rows.append(f"| {m['id']} | {prop} | {summ} | {needs} | {'yes: ' + ', '.join(own_rules) if m.get('detected_by_own_property_check') else '**no**'} | {', '.join(others) or '-'} |")
     return "\n".join(rows)
 
 def twins_table():
-    rows = ["| id | about | suite | agent's behaviour check | verdict of all 19 checks |", "|---|---|---|---|---|"]
+    rows = ["| id | kind | about | suite | agent's behaviour check | verdict of all 19 checks |", "|---|---|---|---|---|---|"]
     for mp in sorted(glob.glob(os.path.join(VERIF, "twins", "*", "meta.json"))):
         m = json.load(open(mp))
         before = m.get("first_verdicts_before_hardening") or {}
         note = "silent" + (f" (before hardening: {', '.join(f'{k}:{v['verdict']}' for k, v in before.items())})" if before else "")
-        rows.append(f"| {m['id']} | {m['about_property']} | {m['suite_with']['passed']} passed | with/without: {'pass' if (m.get('check_with') or {}).get('exit') == 0 else '?'}/{'pass' if (m.get('check_without') or {}).get('exit') == 0 else '?'} | {note} |")
+        kind = "evolution" if "-e" in m["id"] else "refactoring"
+        rows.append(f"| {m['id']} | {kind} | {m['about_property']} | {m['suite_with']['passed']} passed | with/without: {'pass' if (m.get('check_with') or {}).get('exit') == 0 else '?'}/{'pass' if (m.get('check_without') or {}).get('exit') == 0 else '?'} | {note} |")
     return "\n".join(rows)
 
 def catalogue_table():
